@@ -19,9 +19,19 @@ def write_stream(msgs):
     return s.getvalue(), ends
 
 
-def read_stream(classes_seq, data):
+STREAMS = {
+    "BytesIO": lambda data: io.BytesIO(data),
+    # buffered readers (what open(path, "rb") / gzip.open / a socket file give): peek() exists and a read may be split over
+    # refills — tiny buffers make every multi-byte length prefix straddle a buffer boundary somewhere
+    "BufferedReader(7)": lambda data: io.BufferedReader(io.BytesIO(data), buffer_size=7),
+    "BufferedReader(16)": lambda data: io.BufferedReader(io.BytesIO(data), buffer_size=16),
+    "BufferedReader(129)": lambda data: io.BufferedReader(io.BytesIO(data), buffer_size=129),
+}
+
+
+def read_stream(classes_seq, data, kind="BytesIO"):
     """successive loads; returns list of ('ok', msg, tell) / ('err', exc, tell)"""
-    s = io.BytesIO(data)
+    s = STREAMS[kind](data)
     out = []
     for cls in classes_seq:
         try:
@@ -53,6 +63,17 @@ def oracle(chk, inp, msgs, classes_seq, quick, rng):
                 chk.fail("load-consumed-wrong-count", inp, "tell=%d expected=%d" % (tell, end))
             if not (m2 == m) or bytes(m2) != bytes(m):
                 chk.fail("message-differs-after-stream", inp, "%r vs %r" % (m2, m))
+    # the same stream through buffered readers
+    for kind in STREAMS:
+        if kind == "BytesIO":
+            continue
+        res2 = read_stream(classes_seq, data + b"\x07tail", kind)
+        if len(res2) != len(msgs) or any(r[0] != "ok" for r in res2):
+            chk.fail("stream-not-read-back", dict(inp, stream=kind), repr([(r[0], repr(r[1])) for r in res2]))
+        else:
+            for (k, m2, tell), m, end in zip(res2, msgs, ends):
+                if tell != end or not (m2 == m) or bytes(m2) != bytes(m):
+                    chk.fail("message-differs-after-stream", dict(inp, stream=kind), "tell=%d expected=%d; %r vs %r" % (tell, end, m2, m))
     # every cut point: each load returns the written message or raises
     cuts = range(len(data)) if (quick is False or len(data) <= 40) else sorted(rng.sample(range(len(data)), 40))
     for cut in cuts:
